@@ -5,8 +5,9 @@ import Rfsm.Proofs.DurationLemmas
 # C16 — Delayed sends fire once, not early, in due-time order, unless cancelled
 
 Model: `Rfsm.Timer` (`lean/Rfsm/Model/Timer.lean`).  A *schedule* is a list of `Op`s: the session
-thread's `send` / `cancel` / `assign` / `terminate`, the passage of time `tick t`, and `wake` (the
-timer thread runs and pops everything that is due — possibly much later than the first due time).
+thread's `send` / `cancel` / `assign` / `terminate`, the passage of time `tick t`, `wake` (the
+timer thread runs and pops everything that is due — possibly much later than the first due time)
+and `stop` (the `Stop` message that the dropped `timer::Timer` sent reaches the scheduler thread).
 "For all schedules" is a universal quantifier over `List (Op δ ε)`; the datamodel `δ` and the
 event type `ε` are arbitrary types, `mk : δ → ε` is everything a `<send>` evaluates.
 
@@ -60,13 +61,14 @@ def ClauseAtMostOnce : Prop :=
 
 /-- (b) exactly once, parametrised by the side condition on the schedule: a pending entry `e` is
 delivered — exactly once — by the first `wake` at or after its due time, provided no operation in
-between cancels it (`<cancel>` with its id), and the session does not terminate.
+between cancels it (`<cancel>` with its id), and the session does not terminate (no `terminate`,
+no `stop`).
 `side t e ops` is the extra assumption about `<send>`s in `ops`. -/
 def ClauseExactlyOnce (side : ∀ (δ ε : Type), Timer δ ε → Entry ε → List (Op δ ε) → Prop) : Prop :=
   ∀ (δ ε : Type) (t : Timer δ ε), Reachable t →
   ∀ e ∈ t.pending, ∀ (ops : List (Op δ ε)),
     (∀ op ∈ ops, ∀ id, op = .cancel id → e.sendid ≠ some id) →
-    (∀ op ∈ ops, op ≠ .terminate) →
+    (∀ op ∈ ops, op ≠ .terminate ∧ op ≠ .stop) →
     side δ ε t e ops →
     e.due ≤ (t.run ops).now →
     (((t.run ops).wake.log.filter (fun d => d.entry.seq = e.seq)).length = 1 ∧
@@ -86,10 +88,17 @@ def ClauseOtherSession : Prop :=
   ∀ (δ ε : Type) (w : World δ ε) (op : Op δ ε),
     (w.step .A op).b = w.b ∧ (w.step .B op).a = w.a
 
-/-- (d) a terminated session delivers nothing any more -/
+/-- (d) as the property states it: a terminated session delivers nothing any more -/
 def ClauseTerminate : Prop :=
+  ∀ (δ ε : Type) (t : Timer δ ε), Reachable t → ∀ (ops : List (Op δ ε)),
+    (t.terminate.run ops).log = t.log
+
+/-- (d) what the code guarantees: nothing is delivered once the timer's scheduler thread has
+processed the `Stop` message that the dropped `Fsm.timer` sent; between the end of the session
+thread and that moment the timer thread still delivers what falls due. -/
+def ClauseTerminateStop : Prop :=
   ∀ (δ ε : Type) (t : Timer δ ε) (ops : List (Op δ ε)),
-    (t.terminate.run ops).log = t.log ∧ (t.terminate.run ops).pending = []
+    (t.terminate.stop.run ops).log = t.log ∧ (t.terminate.stop.run ops).pending = []
 
 /-- (f) duration syntax: on every text of `\d*(\.\d+)?(ms|s|m|h|d)` (recognised by the independent
 `css2`) the result is the grammar's value (saturated at `i64::MAX`), provided an integer literal
@@ -112,11 +121,12 @@ is pending (`idsFresh`, decidable on a concrete schedule). -/
 def distinctIds : ∀ (δ ε : Type), Timer δ ε → Entry ε → List (Op δ ε) → Prop :=
   fun _ _ t _ ops => idsFresh t ops = true
 
-/-- What holds of the unchanged code: everything, with "exactly once" under `distinctIds`. -/
+/-- What holds of the unchanged code: everything, with "exactly once" under `distinctIds` and
+"termination discards" from the moment the timer thread has seen the `Stop` message. -/
 def C16_partial_statement : Prop :=
   ClauseValueNotEarly ∧ ClauseOrdered ∧ ClauseAtMostOnce ∧
   ClauseExactlyOnce distinctIds ∧
-  ClauseCancel ∧ ClauseOtherSession ∧ ClauseTerminate ∧ ClauseDuration
+  ClauseCancel ∧ ClauseOtherSession ∧ ClauseTerminateStop ∧ ClauseDuration
 
 /-! ## Proofs -/
 
@@ -248,12 +258,10 @@ theorem exactly_once_of_safe_aux (t : Timer δ ε) (hr : Reachable t) (e : Entry
   have hw := hr.wf.run ops
   have hdel : Delivered (t.run ops).wake e := by
     rcases hs with hp | ⟨d, hd, hde⟩
-    · have halive : (t.run ops).alive = true := by
-        cases ha : (t.run ops).alive with
-        | true => rfl
-        | false => have := hw.dead ha; rw [this] at hp; cases hp
+    · have hns : ¬ (t.run ops).stopped = true := by
+        intro hst; have := hw.dead hst; rw [this] at hp; cases hp
       unfold Timer.wake
-      rw [if_neg (by simp [halive])]
+      rw [if_neg hns]
       exact fire_due hw hp hdue _ (Nat.le_refl _)
     · exact ⟨d, (Frame.step (t.run ops) .wake).mono d hd, hde⟩
   obtain ⟨d, hd, hde, hv⟩ := hdel
@@ -268,33 +276,31 @@ theorem C16_exactly_once_no_reuse :
     ClauseExactlyOnce (fun _ _ _ e ops => ∀ op ∈ ops, op.harmlessFor e.sendid = true) := by
   intro δ ε t hr e he ops hc hterm hside hdue
   refine exactly_once_of_safe_aux t hr e he ops ?_ hdue
-  exact keep_run hr.wf he ops (fun op hop => Safe.of_harmless (hside op hop))
+  exact keep_run hr.wf he ops (fun op hop t' => Safe.of_harmless (hside op hop) t')
 #assert_axioms C16_exactly_once_no_reuse
 
 theorem idsFresh_keep_aux {t : Timer δ ε} (h : WF t) {e : Entry ε} (he : e ∈ t.pending) (ops : List (Op δ ε))
-    (hc : ∀ op ∈ ops, ∀ id, op = .cancel id → e.sendid ≠ some id) (hterm : ∀ op ∈ ops, op ≠ .terminate)
+    (hc : ∀ op ∈ ops, ∀ id, op = .cancel id → e.sendid ≠ some id)
+    (hterm : ∀ op ∈ ops, op ≠ .terminate ∧ op ≠ .stop)
     (hf : idsFresh t ops = true) : e ∈ (t.run ops).pending ∨ Delivered (t.run ops) e := by
   induction ops generalizing t with
   | nil => exact Or.inl he
   | cons op ops ih =>
-    have halive : t.alive = true := by
-      cases ha : t.alive with
-      | true => rfl
-      | false => have := h.dead ha; rw [this] at he; cases he
     unfold idsFresh at hf
     rw [Bool.and_eq_true] at hf
-    have hsafe : Safe e op := by
+    have hsafe : Safe t e op := by
       cases op with
       | send id tg d mk =>
         cases id with
         | none => trivial
         | some sid =>
-          intro ⟨hd, htg, hsid⟩
+          intro ⟨halive, hd, htg, hsid⟩
           have hl := h.own e he sid hsid
           have := hf.1
           simp [halive, hd, htg, hl] at this
       | cancel id => exact hc _ (List.mem_cons_self ..) id rfl
-      | terminate => exact absurd rfl (hterm _ (List.mem_cons_self ..))
+      | terminate => exact absurd rfl (hterm _ (List.mem_cons_self ..)).1
+      | stop => exact absurd rfl (hterm _ (List.mem_cons_self ..)).2
       | assign f => trivial
       | tick t' => trivial
       | wake => trivial
@@ -374,26 +380,86 @@ theorem C16_cancel : ClauseCancel := by
 theorem C16_other_session : ClauseOtherSession := fun _ _ _ _ => ⟨rfl, rfl⟩
 #assert_axioms C16_other_session
 
-theorem terminate_run_aux (t : Timer δ ε) (ha : t.alive = false) (hp : t.pending = []) (ops : List (Op δ ε)) :
-    (t.run ops).log = t.log ∧ (t.run ops).pending = [] := by
+theorem stopped_run_aux (t : Timer δ ε) (hs : t.stopped = true) (ha : t.alive = false) (hp : t.pending = [])
+    (ops : List (Op δ ε)) : (t.run ops).log = t.log ∧ (t.run ops).pending = [] := by
   induction ops generalizing t with
   | nil => exact ⟨rfl, hp⟩
   | cons op ops ih =>
-    have hstep : (t.step op).alive = false ∧ (t.step op).pending = [] ∧ (t.step op).log = t.log := by
+    have hstep : (t.step op).stopped = true ∧ (t.step op).alive = false ∧ (t.step op).pending = [] ∧
+        (t.step op).log = t.log := by
       cases op with
-      | send id tg d mk => simp [Timer.step, Timer.send, ha, hp]
-      | cancel id => simp [Timer.step, Timer.cancel, ha, hp]
-      | assign f => simp [Timer.step, Timer.assign, ha, hp]
-      | tick t' => exact ⟨ha, hp, rfl⟩
-      | wake => simp [Timer.step, Timer.wake, ha, hp]
-      | terminate => exact ⟨rfl, rfl, rfl⟩
-    have := ih (t.step op) hstep.1 hstep.2.1
-    exact ⟨this.1.trans hstep.2.2, this.2⟩
+      | send id tg d mk => simp [Timer.step, Timer.send, ha, hp, hs]
+      | cancel id => simp [Timer.step, Timer.cancel, ha, hp, hs]
+      | assign f => simp [Timer.step, Timer.assign, ha, hp, hs]
+      | tick t' => exact ⟨hs, ha, hp, rfl⟩
+      | wake => simp [Timer.step, Timer.wake, ha, hp, hs]
+      | terminate => exact ⟨hs, rfl, hp, rfl⟩
+      | stop => simp [Timer.step, Timer.stop, ha]
+    have := ih (t.step op) hstep.1 hstep.2.1 hstep.2.2.1
+    exact ⟨this.1.trans hstep.2.2.2, this.2⟩
 
-theorem C16_terminate : ClauseTerminate := by
+theorem C16_terminate_stop : ClauseTerminateStop := by
   intro δ ε t ops
-  exact terminate_run_aux t.terminate rfl rfl ops
-#assert_axioms C16_terminate
+  have h : t.terminate.stop.stopped = true ∧ t.terminate.stop.alive = false ∧
+      t.terminate.stop.pending = [] ∧ t.terminate.stop.log = t.log := by
+    simp [Timer.stop, Timer.terminate]
+  have := stopped_run_aux t.terminate.stop h.1 h.2.1 h.2.2.1 ops
+  exact ⟨this.1.trans h.2.2.2, this.2⟩
+#assert_axioms C16_terminate_stop
+
+theorem fireLoop_fields_aux (f : Nat) (t : Timer δ ε) :
+    (fireLoop f t).nextSeq = t.nextSeq ∧ (fireLoop f t).alive = t.alive := by
+  induction f generalizing t with
+  | zero => exact ⟨rfl, rfl⟩
+  | succ f ih =>
+    unfold Rfsm.Timer.fireLoop
+    split
+    · exact ⟨rfl, rfl⟩
+    · rename_i x rest hp
+      split
+      · have h1 := ih (fireOne t x rest)
+        have h2 := fireOne_now t x rest
+        exact ⟨h1.1.trans h2.2.1, h1.2.trans h2.2.2.1⟩
+      · exact ⟨rfl, rfl⟩
+
+theorem dead_nextSeq_aux (u : Timer δ ε) (hu : u.alive = false) (os : List (Op δ ε)) :
+    (u.run os).nextSeq = u.nextSeq := by
+  induction os generalizing u with
+  | nil => rfl
+  | cons o os ih =>
+    have h1 : (u.step o).alive = false ∧ (u.step o).nextSeq = u.nextSeq := by
+      cases o with
+      | send id tg dl mk => simp [Timer.step, Timer.send, hu]
+      | cancel id => simp [Timer.step, Timer.cancel, hu]
+      | assign f => simp [Timer.step, Timer.assign, hu]
+      | tick t' => exact ⟨hu, rfl⟩
+      | terminate => exact ⟨rfl, rfl⟩
+      | stop => simp [Timer.step, Timer.stop, hu]
+      | wake =>
+        show u.wake.alive = false ∧ u.wake.nextSeq = u.nextSeq
+        unfold Timer.wake
+        split
+        · exact ⟨hu, rfl⟩
+        · have := fireLoop_fields_aux u.pending.length u
+          exact ⟨this.2.trans hu, this.1⟩
+    exact (ih _ h1.1).trans h1.2
+
+/-- what can still be delivered after the session thread has ended (while the `Stop` message is
+under way) was pending at that moment, and is delivered no earlier than it was due -/
+theorem C16_after_terminate (t : Timer δ ε) (hr : Reachable t) (ops : List (Op δ ε)) :
+    ∀ d ∈ (t.terminate.run ops).log,
+      d ∈ t.log ∨ (d.entry ∈ t.pending ∧ d.viaTimer = true ∧ d.entry.due ≤ d.time) := by
+  intro d hd
+  have hw := (hr.wf.terminate).run ops
+  rcases (Frame.run t.terminate ops).log d hd with k | ⟨k, hv⟩ | k
+  · exact Or.inl k
+  · exact Or.inr ⟨k, hv, (hw.ltime d hd).1⟩
+  · exfalso
+    have h1 := hw.lseq d hd
+    rw [dead_nextSeq_aux t.terminate rfl ops] at h1
+    have : t.terminate.nextSeq = t.nextSeq := rfl
+    omega
+#assert_axioms C16_after_terminate
 
 theorem C16_duration : ClauseDuration := by
   constructor
@@ -470,9 +536,23 @@ theorem C16_counterexample : ¬ C16_full := by
   decide
 #assert_axioms C16_counterexample
 
+/-- The `Stop` message is asynchronous: a send due at 100, the session thread ends at 50, the timer
+thread wakes at 100 before it has seen `Stop` — the event of the terminated session is delivered. -/
+def stopLatencyScript : List (Op Nat Nat) := [.tick 50, .terminate, .tick 100, .wake, .stop]
+
+theorem C16_counterexample_stop_latency : ¬ ClauseTerminate := by
+  intro h
+  let t1 : Timer Nat Nat := ((Timer.init 0).send none [] 100 (fun _ => 1)).tick 50
+  have hr : Reachable t1 := ⟨0, [.send none [] 100 (fun _ => 1), .tick 50], rfl⟩
+  have := h Nat Nat t1 hr [.tick 100, .wake, .stop]
+  have hl := congrArg List.length this
+  revert hl
+  decide
+#assert_axioms C16_counterexample_stop_latency
+
 theorem C16_partial : C16_partial_statement :=
   ⟨C16_value_not_early, C16_ordered, C16_at_most_once, C16_exactly_once_distinct_ids,
-   C16_cancel, C16_other_session, C16_terminate, C16_duration⟩
+   C16_cancel, C16_other_session, C16_terminate_stop, C16_duration⟩
 #assert_axioms C16_partial
 
 /-! ## Non-vacuity: the hypotheses are satisfiable, the operations do something -/
@@ -494,9 +574,11 @@ example : ((Timer.init 0 : Timer Nat Nat).run
     [.send (some [65]) [] 100 (fun _ => 1), .tick 50, .cancel [65], .tick 150, .wake]).log.length = 0 := by decide
 example : ((Timer.init 0 : Timer Nat Nat).run
     [.send (some [65]) [] 100 (fun _ => 1), .tick 150, .wake, .cancel [65]]).log.length = 1 := by decide
--- termination discards
+-- termination discards once the Stop message has been seen
 example : ((Timer.init 0 : Timer Nat Nat).run
-    [.send none [] 100 (fun _ => 1), .tick 50, .terminate, .tick 150, .wake]).log.length = 0 := by decide
+    [.send none [] 100 (fun _ => 1), .tick 50, .terminate, .stop, .tick 150, .wake]).log.length = 0 := by decide
+example : ((Timer.init 0 : Timer Nat Nat).run
+    ([.send none [] 100 (fun _ => 1), .tick 50] ++ stopLatencyScript)).log.length = 1 := by decide
 -- a late timer thread: still due order, still not early
 example : ((Timer.init 0 : Timer Nat Nat).run
     [.send none [] 100 (fun _ => 1), .tick 120, .send none [] 10 (fun _ => 2), .tick 500, .wake]).log.map
